@@ -37,19 +37,19 @@ func t1rtCase(o *suiteOut, line string) {
 	data, err, pan := writeFont(font, format)
 	if pan != "" || err != nil {
 		o.fail("C09", "writing a font of the writable domain succeeds", line, "nil", fmt.Sprint(err, pan))
-		o.emit(line, "write-failed", true)
+		o.emit(line, "skip", true)
 		return
 	}
 	back, err, pan := readFont(data)
 	if pan != "" || err != nil {
 		o.fail("C09", "reading what was written succeeds", line, "nil", fmt.Sprint(err, pan))
-		o.emit(line, "read-failed", true)
+		o.emit(line, "skip", true)
 		return
 	}
 	if d := compareFonts(font, back, 0.005, integer); d != "" {
 		o.fail("C09", "reading what was written yields an equal font", line, "equal", d)
 	}
-	o.emit(line, fmt.Sprintf("ok %d bytes, %d glyphs", len(data), len(back.Glyphs)), len(font.Glyphs) > 1)
+	o.emit(line, "skip", len(font.Glyphs) > 1)
 }
 
 func suiteT1rt(o *suiteOut, r *rng, tier string, n int) {
@@ -241,14 +241,14 @@ func t1writeCase(o *suiteOut, line string) {
 		}()
 		if pan != "" || err != nil {
 			o.fail("C08", "WritePDF succeeds", line, "nil", fmt.Sprint(err, pan))
-			o.emit(line, "write-failed", true)
+			o.emit(line, "skip", true)
 			return
 		}
 		data := buf.Bytes()
 		sf, err := specDecodeFont(data)
 		if err != nil {
 			o.fail("C08", "the PDF embedding form is a conforming binary font program", line, "decodes", err.Error())
-			o.emit(line, "decode-failed", true)
+			o.emit(line, "skip", true)
 			return
 		}
 		clearLen := len(sf.Clear)
@@ -261,19 +261,19 @@ func t1writeCase(o *suiteOut, line string) {
 		if d := compareSpecFont(font, sf, integer); d != "" {
 			o.fail("C08", "an independent decoder recovers the font from the PDF embedding form", line, "equal", d)
 		}
-		o.emit(line, fmt.Sprintf("ok l1=%d l2=%d", l1, l2), true)
+		o.emit(line, "skip", true)
 		return
 	}
 	data, err, pan := writeFont(font, format)
 	if pan != "" || err != nil {
 		o.fail("C08", "writing a font of the writable domain succeeds", line, "nil", fmt.Sprint(err, pan))
-		o.emit(line, "write-failed", true)
+		o.emit(line, "skip", true)
 		return
 	}
 	sf, err := specDecodeFont(data)
 	if err != nil {
 		o.fail("C08", "the written bytes are a conforming Type 1 font program (container framing, eexec key 55665, charstring key 4330 with four lead bytes)", line, "decodes", err.Error())
-		o.emit(line, "decode-failed", true)
+		o.emit(line, "skip", true)
 		return
 	}
 	if sf.Format != map[string]string{"pfa": "pfa", "pfb": "pfb", "binary": "binary", "noeexec": "clear"}[f[3]] {
@@ -294,7 +294,7 @@ func t1writeCase(o *suiteOut, line string) {
 			o.fail("C08", "little-endian PFB segment framing ending in an end marker", line, "well-framed", err.Error())
 		}
 	}
-	o.emit(line, fmt.Sprintf("ok %d bytes %s", len(data), sf.Format), len(font.Glyphs) > 1)
+	o.emit(line, "skip", len(font.Glyphs) > 1)
 }
 
 func suiteT1write(o *suiteOut, r *rng, tier string, n int) {
@@ -380,7 +380,7 @@ func t1closureCase(o *suiteOut, line string) {
 	src := unusualFont(newRng(seed))
 	x, err, pan := writeFont(src, type1.FormatPFA)
 	if err != nil || pan != "" {
-		o.emit(line, "source-not-writable", false)
+		o.emit(line, "skip", false)
 		return
 	}
 	f1, err, pan := readFont(x)
@@ -388,19 +388,19 @@ func t1closureCase(o *suiteOut, line string) {
 		o.fail("C01", "no panic in the Type 1 reader", line, "error value", pan)
 	}
 	if err != nil || f1 == nil {
-		o.emit(line, "not-accepted", false)
+		o.emit(line, "skip", false)
 		return
 	}
 	d1, err, pan := writeFont(f1, format)
 	if err != nil || pan != "" {
 		o.fail("C10", "writing a font that was read succeeds without panic or error", line, "nil", fmt.Sprint(err, pan))
-		o.emit(line, "write-failed", true)
+		o.emit(line, "skip", true)
 		return
 	}
 	f2, err, pan := readFont(d1)
 	if err != nil || pan != "" {
 		o.fail("C10", "re-reading the written font succeeds", line, "nil", fmt.Sprint(err, pan))
-		o.emit(line, "reread-failed", true)
+		o.emit(line, "skip", true)
 		return
 	}
 	if d := quantisedEqual(f1, f2); d != "" {
@@ -409,19 +409,19 @@ func t1closureCase(o *suiteOut, line string) {
 	d2, err, pan := writeFont(f2, format)
 	if err != nil || pan != "" {
 		o.fail("C10", "second write succeeds", line, "nil", fmt.Sprint(err, pan))
-		o.emit(line, "write2-failed", true)
+		o.emit(line, "skip", true)
 		return
 	}
 	f3, err, pan := readFont(d2)
 	if err != nil || pan != "" {
 		o.fail("C10", "second re-read succeeds", line, "nil", fmt.Sprint(err, pan))
-		o.emit(line, "reread2-failed", true)
+		o.emit(line, "skip", true)
 		return
 	}
 	if d := compareFonts(f2, f3, 0, true); d != "" {
 		o.fail("C10", "a second write/read cycle changes nothing at all", line, "identical", d)
 	}
-	o.emit(line, fmt.Sprintf("ok %d %d", len(d1), len(d2)), true)
+	o.emit(line, "skip", true)
 }
 
 func suiteT1closure(o *suiteOut, r *rng, tier string, n int) {
